@@ -300,8 +300,42 @@ impl Ctx {
         }
     }
 
+    /// Sanitizer layers (ASan / TSan / Miri / valgrind re-runs of the same workload) are
+    /// executed by `bin/sanitize` before the thorough run; their summary is merged here:
+    /// a *report* attributed to repository code is a violation, a layer that could not be
+    /// built or run is recorded as inconclusive for that layer only.
+    fn merge_sanitizer_summary(&self) {
+        let Ok(path) = std::env::var("VH_SAN_SUMMARY") else {
+            return;
+        };
+        let Ok(text) = std::fs::read_to_string(&path) else {
+            return;
+        };
+        let Ok(v) = serde_json::from_str::<Value>(&text) else {
+            return;
+        };
+        if let Some(layers) = v.get("layers").and_then(Value::as_array) {
+            for l in layers {
+                let name = l.get("layer").and_then(Value::as_str).unwrap_or("?");
+                if let Some(reports) = l.get("reports").and_then(Value::as_array) {
+                    for r in reports {
+                        let site = r.get("site").and_then(Value::as_str).unwrap_or("unknown-site");
+                        let kind = r.get("kind").and_then(Value::as_str).unwrap_or("report");
+                        self.violation(
+                            &format!("{}|sanitizer|{name}|{kind}|{site}", self.id),
+                            &format!("{name} reported {kind} at {site} while running this property's workload"),
+                            r.clone(),
+                        );
+                    }
+                }
+            }
+        }
+        self.set_extra("sanitizer_layers", v.get("layers").cloned().unwrap_or(Value::Null));
+    }
+
     /// Write the evidence file, print the verdict lines, exit.
     pub fn finish(&self) -> ! {
+        self.merge_sanitizer_summary();
         let g = self.lock();
         let wall = self.start.elapsed().as_secs_f64();
         let mut known_lines = Vec::new();
